@@ -378,6 +378,11 @@ def check_numbering(cg, fine, all_atom, what=''):
                        lambda: '%satom %r (%s) is named %r' % (what, x, el, nm))
                 expect(g.nodes[x].get('atomname') == nm or len(fine.nodes[x]['fragid']) > 1, 'numbering:atomname-in-fragment-graph',
                        lambda: '%satom %r named %r in the molecule and %r in the fragment graph' % (what, x, nm, g.nodes[x].get('atomname')))
+            if not shared and len(g):
+                # 'element plus a running index': the counter follows the atoms of the coarse node in key order
+                idx = [int(fine.nodes[x]['atomname'][len(fine.nodes[x]['element']):]) for x in sorted(g.nodes)]
+                expect(idx == list(range(len(idx))), 'numbering:atomname-counter',
+                       lambda: '%satoms %r of coarse node %r are named %r' % (what, sorted(g.nodes), k, [fine.nodes[x]['atomname'] for x in sorted(g.nodes)]))
             gnames = [g.nodes[x].get('atomname') for x in g.nodes]
             expect(len(set(gnames)) == len(gnames), 'numbering:atomname-not-unique',
                    lambda: '%satom names of coarse node %r: %r' % (what, k, gnames))
